@@ -65,9 +65,9 @@ PROPS = {'C01': {'assumptions': ['hostile bytes inside histories are decoded und
          'lanes_thorough': ['D', 'R', 'M'],
          'max_cases_miri': 8,
          'miri_workers': 6,
-         'required_counters': ['family:native-corpus', 'family:untyped', 'agree:to_bytes'],
-         'rule': '(a) 0..3 generated values of corpus Rust types through IDLBuilder::arg/serialize_to_vec; (b) generated (environment with aliases, knots, '
-                 'mutual recursion, shared sub-types; types; values; some labels as names) through IDLArgs::to_bytes_with_types and '
+         'required_counters': ['family:native-corpus', 'family:untyped', 'agree:to_bytes', 'cover:table-over-64-entries'],
+         'rule': '(a) 0..3 (wide family: 25..64, so that the type table exceeds 64 entries and type references need two SLEB128 bytes) generated values of corpus Rust types through IDLBuilder::arg/serialize_to_vec; (b) generated (environment with aliases, knots, '
+                 'mutual recursion, shared sub-types; wide family: 65..155 distinct field/argument types, option towers, definition chains; types; values; some labels as names) through IDLArgs::to_bytes_with_types and '
                  'IDLBuilder::value_arg_with_type, and IDLArgs::to_bytes on the values as the decoder returns them when their vectors are homogeneous. Oracle: '
                  'the reference decoder R1 accepts the bytes (composite-only table, ascending unique field ids, ascending unique method names, methods are '
                  'functions, indices in range), every LEB128 is minimal, argument types are structurally equal (bisimulation) to the source types, abstract '
